@@ -37,7 +37,8 @@ Section QU.
   Definition Qdecrease_k := decrease_k_by_1 Item ditem Q 0 1 (-(1)) Qplus Qmult Qdiv Qltb Qle_bool Qeq_bool inject_Z Qbad cu.
   Definition Qdec_loop := dec_loop Item ditem Q 0 1 (-(1)) Qplus Qmult Qdiv Qltb Qle_bool Qeq_bool inject_Z Qbad cu.
   Definition Qmigrate := migrate Item ditem Q 0 1 (-(1)) Qplus Qmult Qdiv Qltb Qle_bool Qeq_bool inject_Z Qbad cu.
-  Definition Qmark_moving := mark_moving Item Q 0 (-(1)) Qplus Qminus Qmult Qltb Qeps10.
+  Definition Qmark_moving := mark_moving Item ditem Q 0 (-(1)) Qplus Qminus Qmult Qltb Qle_bool Qeps10.
+  Definition Qresult_gen2 := get_result_gen2 Item ditem Q 0 1 (-(1)) Qplus Qminus Qmult Qdiv Qltb Qle_bool Qeq_bool inject_Z Qbad cu Qeps10.
   Definition Qresult_gen := get_result_gen Item ditem Q 0 1 (-(1)) Qplus Qminus Qmult Qdiv Qltb Qle_bool Qeq_bool inject_Z Qbad cu Qeps10.
   Definition Qresult := get_result Item ditem Q 0 1 (-(1)) Qplus Qminus Qmult Qdiv Qltb Qle_bool Qeq_bool inject_Z Qbad cu Qeps10.
   Definition Quempty := vu_empty Item Q 0.
@@ -439,7 +440,7 @@ Section QU.
     vn res = n /\ sumw (vH res) + vtot res == W /\ (vk res <= umaxk u)%nat /\ (hh res + rr res <= vk res)%nat /\
     vM res = [] /\ mm res = 0%nat /\ wpos (vH res) /\ vgad res = false /\ incl (sitems res) (sitems (ugad u)).
   Proof.
-    intros ((HR & Ek & Hsum) & Hgad & En & Hgn) E. unfold Qresult_gen, get_result_gen in E.
+    intros ((HR & Ek & Hsum) & Hgad & En & Hgn) E. unfold Qresult_gen, get_result_gen, get_result_gen2 in E.
     set (g := ugad u) in *.
     pose proof HR as (HM & Hmb & Hpos & Hk1 & Hmode).
     assert (HGc : forall b, G (copy_as Item Q g b (un u))).
@@ -456,25 +457,29 @@ Section QU.
     - destruct ((rr g =? 0)%nat && (0 <? vmarks g)%nat && (vmarks g =? uotd u)%nat &&
                 negb (exists_unmarked_lighter Item Q Qltb g (a4 u)))%bool.
       + (* mark_moving_gadget_coercer *)
-        fold Qmark_moving in E. unfold Qmark_moving, mark_moving in E. fold g in E.
+        unfold mark_moving_gen in E. fold g in E.
         destruct (Qltb Qeps10 _ || Qltb _ (- (1) * Qeps10))%bool; [discriminate|]. injection E as <- <-.
+        set (H0 := map (fun x : slot => mkslot (s_item x) (s_wt x) false) (filter (fun x : slot => negb (s_mark x)) (vH g))).
+        pose proof (Hconv_perm Item ditem H0) as PH.
         unfold hh, rr, mm. cbn [vn vH vtot vk vR vM vmb vgad copy_as].
         pose proof (filter_partition_length (@s_mark Item Q) (vH g)) as PL.
         pose proof (sumw_filter_partition (@s_mark Item Q) (vH g)) as PS.
         pose proof (G_samples_le_k _ (HGc true)) as Hle. unfold copy_as, hh, rr in Hle. cbn [vH vR vk] in Hle.
         split; [exact En|].
-        split; [rewrite sumw_map_unmark, (fold_sum Item (filter (@s_mark Item Q) (vH g)) 0); rewrite <- Hsum; lra|].
+        split; [rewrite <- (sumw_perm Item _ _ PH); subst H0; rewrite sumw_map_unmark, (fold_sum Item (filter (@s_mark Item Q) (vH g)) 0); rewrite <- Hsum; lra|].
         split; [unfold hh, rr; lia|].
-        split; [rewrite map_length, rev_length, app_length, map_length; unfold hh, rr; lia|].
+        split; [rewrite <- (Permutation_length PH); subst H0; rewrite map_length, rev_length, app_length, map_length; unfold hh, rr; lia|].
         split; [exact HM|]. split; [rewrite HM, Hmb; reflexivity|].
-        split; [|split; [reflexivity|]].
-        * unfold VarOptProofs.wpos. rewrite Forall_forall. intros y Hy. apply in_map_iff in Hy. destruct Hy as (x & <- & Hx).
-          cbn [s_wt]. apply filter_In in Hx. unfold VarOptProofs.wpos in Hpos. rewrite Forall_forall in Hpos. now apply Hpos.
-        * unfold sitems. cbn [vH vR]. intros y Hy. apply in_app_or in Hy. apply in_or_app. destruct Hy as [Hy|Hy].
-          -- left. rewrite map_map in Hy. cbn [s_item] in Hy. apply in_map_iff in Hy. destruct Hy as (x & <- & Hx).
-             apply filter_In in Hx. apply in_map. now apply Hx.
-          -- apply in_rev in Hy. apply in_app_or in Hy. destruct Hy as [Hy|Hy]; [now right|left].
-             apply in_map_iff in Hy. destruct Hy as (x & <- & Hx). apply filter_In in Hx. apply in_map. now apply Hx.
+        assert (HposH0 : wpos H0).
+        { subst H0. unfold VarOptProofs.wpos. rewrite Forall_forall. intros y Hy. apply in_map_iff in Hy. destruct Hy as (x & <- & Hx).
+          cbn [s_wt]. apply filter_In in Hx. unfold VarOptProofs.wpos in Hpos. rewrite Forall_forall in Hpos. now apply Hpos. }
+        split; [exact (wpos_perm Item _ _ PH HposH0)|split; [reflexivity|]].
+        unfold sitems. cbn [vH vR]. intros y Hy. apply in_app_or in Hy. apply in_or_app. destruct Hy as [Hy|Hy].
+        * left. apply in_map_iff in Hy. destruct Hy as (z & <- & Hz).
+          apply (Permutation_in z (Permutation_sym PH)) in Hz. subst H0. apply in_map_iff in Hz. destruct Hz as (x & <- & Hx).
+          cbn [s_item]. apply filter_In in Hx. apply in_map. now apply Hx.
+        * apply in_rev in Hy. apply in_app_or in Hy. destruct Hy as [Hy|Hy]; [now right|left].
+          apply in_map_iff in Hy. destruct Hy as (x & <- & Hx). apply filter_In in Hx. apply in_map. now apply Hx.
       + (* migrate_marked_items_by_decreasing_k *)
         fold Qmigrate in E.
         destruct (migrate_spec _ c res c' (HGc false) E) as (HGr & Enr & Hsr & Ekr & Egr & Hir).
